@@ -171,7 +171,7 @@ def cases(draw):
 
 def run_shard(ctx):
     K = ctx.scale(oracle.K_QUICK, 100)
-    hyp_search(ctx, cases(), lambda c: check_case(c, ctx.stats, K), ctx.scale(90, 3000))
+    hyp_search(ctx, cases(), lambda c: check_case(c, ctx.stats, K), ctx.scale(90, 1200))
 
 
 def replay(case):
